@@ -368,8 +368,23 @@ class Interp(object):
             return cons
         if n.kind == "join" and n.label == "forbody":
             return cons + self._range_facts(n.ast, n)
+        # the index of ``for i, x in enumerate(seq)`` counts the iterations
+        enum = None
+        if n.kind == "stmt" and n.label == "foriter":
+            enum = self._enum_index(n.ast._parent)
+            if enum is not None:
+                cons = self._assign(cons, enum[0], enum[1](n) - 1)
+        if n.kind == "join" and n.label == "forelse":
+            enum = self._enum_index(n.ast)
+            if enum is not None:
+                return self._kill(cons, enum[0])
+        if n.kind == "iter":
+            enum = self._enum_index(n.ast)
         defs = [d for d in flow.node_defs.get(n.id, [])
                 if d.mode != "param"]
+        if n.kind == "iter" and enum is not None:
+            cons = self._assign(cons, enum[0], Poly.atom(enum[0]) + 1)
+            defs = [d for d in defs if d.var != enum[0]]
         if not defs:
             return cons
         # evaluate right-hand sides in the pre-state
@@ -516,6 +531,35 @@ class Interp(object):
         cons = cons + [le(L + lo, T), le(T, L + hi)]
         cons = self._kill(cons, var)
         return [Con(c.p.subst({tmp: L}), c.strict, c.why) for c in cons]
+
+    def _enum_index(self, forstmt):
+        """(index variable, start(node) -> Poly) when ``forstmt`` iterates
+        enumerate(...) into ``i, x`` and nothing else binds i in the loop."""
+        if not isinstance(forstmt, ast.For):
+            return None
+        it, tgt = forstmt.iter, forstmt.target
+        if not (isinstance(it, ast.Call) and isinstance(it.func, ast.Name)
+                and it.func.id == "enumerate" and it.args and
+                isinstance(tgt, ast.Tuple) and len(tgt.elts) == 2 and
+                isinstance(tgt.elts[0], ast.Name)):
+            return None
+        var = tgt.elts[0].id
+        head = self.cfg.loop_head[id(forstmt)]
+        for d in self.flow.defs:
+            if d.var == var and d.node is not head and \
+                    d.node.ast is not None and _within(d.node.ast, forstmt):
+                return None
+        start = None
+        if len(it.args) > 1:
+            start = it.args[1]
+        for k in it.keywords:
+            if k.arg == "start":
+                start = k.value
+
+        def start_of(node):
+            return Poly.const(0) if start is None else \
+                self.flow.sym(start, node)
+        return var, start_of
 
     def _range_facts(self, forstmt, n):
         out = []
@@ -687,6 +731,15 @@ class Interp(object):
         if st is None:
             return "unreachable"
         return "; ".join(repr(c) for c in st[:30])
+
+
+def _within(node, anc):
+    p = node
+    while p is not None:
+        if p is anc:
+            return True
+        p = getattr(p, "_parent", None)
+    return False
 
 
 def _same_split(s, t):
